@@ -413,7 +413,7 @@ func (in *c20Inst) apply(c *verifmc.Check, e int, check bool, report c20Reporter
 		if check {
 			// snapshots and round closings elsewhere never touch A's links
 			o := in.observe()
-			if o.link != envBefore.link || o.mem != envBefore.mem || o.memExtra != envBefore.memExtra || c20DumpString(o.links) != c20DumpString(envBefore.links) {
+			if o.link != envBefore.link || o.mem != envBefore.mem || o.memExtra != envBefore.memExtra {
 				report("environment:links-changed", fmt.Sprintf("%s changed the links of A: stored %v -> %v, memory %v -> %v", ev.name, envBefore.link, o.link, envBefore.mem, o.mem))
 			}
 			if k != c20A && o.chain != envBefore.chain {
@@ -490,7 +490,8 @@ func (in *c20Inst) apply(c *verifmc.Check, e int, check bool, report c20Reporter
 		in.roundName(before.cacheExt), before.link[2], before.link[3], c20SelfNames[ev.self], refs.Self.String()[:8], c20ExtNames[ev.ext], in.roundName(refs.External), ts)
 	if p != nil {
 		c.Outcome(what + ":panic")
-		report(fmt.Sprintf("panic:%s:%s", what, strings.ReplaceAll(site, " ", "")), fmt.Sprintf("%s passed the kernel-level validation and then panicked: %v", input, p))
+		_ = site // empty in scratch worktrees (paths outside /repo): the key is built from the message
+		report(fmt.Sprintf("panic:%s:%s", what, c20Slug(fmt.Sprint(p))), fmt.Sprintf("%s passed the kernel-level validation and then panicked: %v", input, p))
 		return c20Broken
 	}
 	after := in.observe()
@@ -639,6 +640,22 @@ func (in *c20Inst) apply(c *verifmc.Check, e int, check bool, report c20Reporter
 		return c20Broken
 	}
 	return c20Moved
+}
+
+// c20Slug keeps the leading words of a panic message (up to the first token
+// holding a digit, i.e. a hash or a number).
+func c20Slug(msg string) string {
+	var out []string
+	for _, w := range strings.Fields(msg) {
+		if strings.ContainsAny(w, "0123456789") || len(out) >= 6 {
+			break
+		}
+		out = append(out, w)
+	}
+	if len(out) == 0 {
+		return "value"
+	}
+	return strings.Join(out, "-")
 }
 
 func c20Delta2(a, b map[string]string) (added, changed, removed int) {
